@@ -432,6 +432,15 @@ package provider
 //@   loop 1 invariant C03,C12.one-entry-per-key-so-far: forall j :: 0 <= j && j <= $mi ==>
 //@             customAttr(#attrs[len(#attrs) - 1 - $mi + j], lookup(a.customAttributes, mapkeyat($mtok, j)), mapkeyat($mtok, j))
 //@
+//@ ## C15/C03: an ID is "_" followed by the text of exactly one freshly drawn uuid (whose uniqueness across calls and goroutines is the
+//@ ## library's guarantee, A-MISC on uuid.New); "_" makes it a legal xs:ID start. Callers use this contract.
+//@ func provider.NewID
+//@   names id
+//@   property C15
+//@   assigns idCount
+//@   ensures C15,C03.id-is-underscore-plus-one-fresh-uuid: id == idOf(old(idCount)) && idIndex(id) == old(idCount) && idCount == old(idCount) + 1 && id != ""
+//@   canary C15.canary-constant-id: id == "_"
+//@
 //@ pure wfProvider(p) = p != nil && p.conf != nil && p.conf.IDPConfig != nil && p.storage != nil && p.metadataEndpoint != nil && wfIDP(p.identityProvider)
 //@ func provider.healthHandler
 //@   inline
@@ -585,6 +594,7 @@ package provider
 //@   ensures C04.unsigned-otherwise: err == nil && (p.conf.MetadataConfig == nil || p.conf.MetadataConfig.SignatureAlgorithm == "") ==> entity != nil && entity.Signature == nil && signCount == old(signCount)
 //@   ensures C11.entity-id: err == nil ==> entity.EntityID == endpointAbs(p.identityProvider.metadataEndpoint, issuerOfCtx(valof(ctx)))
 //@
+//@ pure servedMD() = as(encRef, "md.EntityDescriptorType")
 //@ func (*provider.Provider).metadataHandle
 //@   inline
 //@   property C09
@@ -595,6 +605,15 @@ package provider
 //@   ensures C10.fault-means-error-reply: faulted ==> httpError() && emitCode >= 500
 //@   ensures C11.reply-is-error-or-the-entity-descriptor: httpError() || (emitKind == 5 && encTag == typetag("*md.EntityDescriptorType") && msgCurrent() &&
 //@             as(encRef, "md.EntityDescriptorType").EntityID == endpointAbs(p.identityProvider.metadataEndpoint, issuerOfCtx(ctxOf(r))))
+//@   ensures C11.served-flag-is-the-enforced-one: emitKind == 5 ==> servedMD().IDPSSODescriptor != nil &&
+//@             servedMD().IDPSSODescriptor.WantAuthnRequestsSigned == p.identityProvider.conf.WantAuthRequestsSigned
+//@   ensures C11.served-locations-are-the-routed-ones: emitKind == 5 ==> servedMD().IDPSSODescriptor != nil && servedMD().AttributeAuthorityDescriptor != nil &&
+//@             len(servedMD().IDPSSODescriptor.SingleSignOnService) == 2 && len(servedMD().IDPSSODescriptor.SingleLogoutService) == 2 && len(servedMD().AttributeAuthorityDescriptor.AttributeService) == 1 &&
+//@             servedMD().IDPSSODescriptor.SingleSignOnService[0].Location == absOf(epPath(ssoEP(p.identityProvider.conf), "SSO"), epURL(ssoEP(p.identityProvider.conf)), issuerOfCtx(ctxOf(r))) &&
+//@             servedMD().IDPSSODescriptor.SingleSignOnService[1].Location == absOf(epPath(ssoEP(p.identityProvider.conf), "SSO"), epURL(ssoEP(p.identityProvider.conf)), issuerOfCtx(ctxOf(r))) &&
+//@             servedMD().IDPSSODescriptor.SingleLogoutService[0].Location == absOf(epPath(sloEP(p.identityProvider.conf), "SLO"), epURL(sloEP(p.identityProvider.conf)), issuerOfCtx(ctxOf(r))) &&
+//@             servedMD().IDPSSODescriptor.SingleLogoutService[1].Location == absOf(epPath(sloEP(p.identityProvider.conf), "SLO"), epURL(sloEP(p.identityProvider.conf)), issuerOfCtx(ctxOf(r))) &&
+//@             servedMD().AttributeAuthorityDescriptor.AttributeService[0].Location == absOf(epPath(attrEP(p.identityProvider.conf), "attribute"), epURL(attrEP(p.identityProvider.conf)), issuerOfCtx(ctxOf(r)))
 //@   ensures C04.served-signature-is-over-the-document-served: emitKind == 5 && as(encRef, "md.EntityDescriptorType").Signature != nil ==>
 //@             as(encRef, "md.EntityDescriptorType").Signature == sigOut && signedBox == encRef && encVer == signedVer + 1
 //@
